@@ -1214,10 +1214,10 @@ impl Family for Cw20Family {
     }
     fn props(&self) -> Vec<PropSpec> {
         vec![
-            PropSpec { id: "C01", quick_cases: 6000, thorough_cases: 40_000, floor: 300, rule: "case = instantiate message (0-6 accounts from a 5-address pool incl. duplicates/invalid, optional minter/cap) + up to 40 (thorough 120) op groups over all cw20 execute variants with edge-biased absolute and state-relative amounts; after every step AllAccounts is paged to exhaustion and compared with TokenInfo, plus exact per-step balance/supply deltas. Non-trivial: history has >=1 successful mint or burn, >=1 successful allowance draw and >=1 failed call; distinct = distinct canonical JSON of the case.", assumptions: ASSUME },
-            PropSpec { id: "C02", quick_cases: 6000, thorough_cases: 40_000, floor: 300, rule: "same case type, weights towards allowances/draws/advance and a dedicated increase;(decrease||draw) race arm; oracle: clauses (a)-(e) of DESIGN section 4/C02 from Balance/Allowance observations of all 5 actors and 25 pairs before and after every call. Non-trivial: >=1 successful draw and >=1 draw refused because the allowance was expired or too small at that block.", assumptions: ASSUME },
-            PropSpec { id: "C13", quick_cases: 6000, thorough_cases: 40_000, floor: 200, rule: "same case type weighted towards Mint/Burn/UpdateMinter by minter, ex-minters and strangers, caps at initial supply -1/0/+1 and mint amounts at cap-supply(+1). Non-trivial: token starts with a minter and (>=1 hand-over and >=1 mint attempt by the minter at the cap boundary) or (a renounce followed by >=1 mint/update attempt).", assumptions: ASSUME },
-            PropSpec { id: "C19", quick_cases: 4000, thorough_cases: 25_000, floor: 150, rule: "same case type weighted towards allowance changes; 40% of cases start from a fabricated 0.13.4 storage image (frozen legacy layout: token_info, balance, allowance keyed (owner,spender), cw2 version) that is migrated first; after every step AllAllowances and AllSpenderAllowances (paged with limit 3) and Allowance are compared for all 25 pairs. Non-trivial: a draw to exactly zero or a removal by decrease (fresh arm) or >=2 migrated allowances later modified (legacy arm).", assumptions: ASSUME },
+            PropSpec { id: "C01", quick_cases: 20000, thorough_cases: 40_000, floor: 1000, rule: "case = instantiate message (0-6 accounts from a 5-address pool incl. duplicates/invalid, optional minter/cap) + up to 40 (thorough 120) op groups over all cw20 execute variants with edge-biased absolute and state-relative amounts; after every step AllAccounts is paged to exhaustion and compared with TokenInfo, plus exact per-step balance/supply deltas. Non-trivial: history has >=1 successful mint or burn, >=1 successful allowance draw and >=1 failed call; distinct = distinct canonical JSON of the case.", assumptions: ASSUME },
+            PropSpec { id: "C02", quick_cases: 20000, thorough_cases: 40_000, floor: 1000, rule: "same case type, weights towards allowances/draws/advance and a dedicated increase;(decrease||draw) race arm; oracle: clauses (a)-(e) of DESIGN section 4/C02 from Balance/Allowance observations of all 5 actors and 25 pairs before and after every call. Non-trivial: >=1 successful draw and >=1 draw refused because the allowance was expired or too small at that block.", assumptions: ASSUME },
+            PropSpec { id: "C13", quick_cases: 20000, thorough_cases: 40_000, floor: 666, rule: "same case type weighted towards Mint/Burn/UpdateMinter by minter, ex-minters and strangers, caps at initial supply -1/0/+1 and mint amounts at cap-supply(+1). Non-trivial: token starts with a minter and (>=1 hand-over and >=1 mint attempt by the minter at the cap boundary) or (a renounce followed by >=1 mint/update attempt).", assumptions: ASSUME },
+            PropSpec { id: "C19", quick_cases: 12000, thorough_cases: 25_000, floor: 450, rule: "same case type weighted towards allowance changes; 40% of cases start from a fabricated 0.13.4 storage image (frozen legacy layout: token_info, balance, allowance keyed (owner,spender), cw2 version) that is migrated first; after every step AllAllowances and AllSpenderAllowances (paged with limit 3) and Allowance are compared for all 25 pairs. Non-trivial: a draw to exactly zero or a removal by decrease (fresh arm) or >=2 migrated allowances later modified (legacy arm).", assumptions: ASSUME },
         ]
     }
     fn strategy(&self, prop: &str, tier: Tier) -> BoxedStrategy<Case> {
